@@ -70,16 +70,69 @@ def _effects(body):
     return out
 
 
+AUTH_SET = "authenticated_tcp_peers"
+
+
+def _member_edge(term, meaning, *_):
+    """`authenticated_tcp_peers.contains(peer)` is true"""
+    t, neg = term, False
+    while t[0] == "un" and t[1] == "Not":
+        t, neg = t[2], not neg
+    if t[0] == "call" and t[1].endswith("::contains") and mir.has_field(t, AUTH_SET) and isinstance(meaning, bool):
+        return meaning != neg
+    return False
+
+
+def _helper_callers_authenticated(ctx):
+    """assume/guarantee for the inbound-TCP nomination helper, which has no credential check of its own: every call of
+    it is cut by the verification-succeeded edge, the not-WebRtc edge, or membership of the stream's peer in
+    `authenticated_tcp_peers`; and that set is only ever filled by the request handler at a point cut by the same
+    edges. -> (ok, description)"""
+    helper = TCPNOM.split("::{closure")[0]
+    n_calls = 0
+    for b in ctx.facts.all_bodies():
+        if "::tests::" in b.name:
+            continue
+        calls = [bi for bi, t, p in b.calls() if p == helper or (t["f"].get("fn") or "") == helper]
+        if not calls:
+            continue
+        g = core.guard_edges(b, _authenticated_edge) + core.guard_edges(b, _not_webrtc_edge) + core.guard_edges(b, _member_edge)
+        for bi in calls:
+            n_calls += 1
+            if not g or core.k1(b, [bi], g)[bi] is not None:
+                return False, "call at %s is not cut by an authentication edge" % b.where(bi)
+    if n_calls == 0:
+        return False, "no call site found"
+    n_ins = 0
+    for b in ctx.facts.all_bodies():
+        if "::tests::" in b.name:
+            continue
+        ins = [bi for bi, t, p in b.calls() if p and p.endswith(("::insert", "::extend")) and t["a"] and mir.has_field(b.term_operand(t["a"][0]), AUTH_SET)]
+        if not ins:
+            continue
+        g = core.guard_edges(b, _authenticated_edge) + core.guard_edges(b, _not_webrtc_edge)
+        for bi in ins:
+            n_ins += 1
+            if b.name != REQ or not g or core.k1(b, [bi], g)[bi] is not None:
+                return False, "%s filled at %s without a credential check" % (AUTH_SET, b.where(bi))
+    if n_ins == 0:
+        return False, "%s is never filled" % AUTH_SET
+    return True, "all %d call sites of the helper are cut by verification / not-WebRtc / %s.contains(peer); the set is filled only past the credential check" % (n_calls, AUTH_SET)
+
+
 def r06_1(ctx):
     r = RuleResult("R06.1", "K1", "inbound Binding requests change ICE state only after credential verification")
     total = 0
+    helper_ok, helper_why = _helper_callers_authenticated(ctx)
     for name in (REQ, TCPNOM):
         b = ctx.body(name)
         r.scope.append(name)
         g = core.guard_edges(b, _authenticated_edge) + core.guard_edges(b, _not_webrtc_edge)
         for bi, site in _effects(b):
             total += 1
-            if g and core.k1(b, [bi], g)[bi] is None:
+            if name == TCPNOM and helper_ok:
+                r.ok({"site": "%s %s" % (b.where(bi), site), "cut_by": helper_why})
+            elif g and core.k1(b, [bi], g)[bi] is None:
                 r.ok({"site": "%s %s" % (b.where(bi), site), "cut_by": "message-integrity verification"})
             else:
                 r.violate(name, site, b.where(bi),
